@@ -152,3 +152,14 @@ claim("C19",
       "(orientation, placement, pageby_row, fig_align, fig_pos) are hand-modelled and tied by the differential check only.",
       "Rocq proof (forallb/existsb lemmas over regenerated legal sets) + malformed-input differential stream",
       "DESIGN.md section 6 C19")
+claim("C16",
+      "Theorems (Coq, unbounded): the hex payload decodes to the exact bytes for every byte string; the PNG parser returns "
+      "the big-endian dimensions after any chunk header; the JPEG scanner returns the first start-of-frame's dimensions "
+      "and skips every other segment by its declared length; display size = int(inches x 1440); sizes are positional "
+      "with the last value reused. Against the implementation: picture destinations of the parsed output — payload "
+      "decoded and compared with the file bytes, blip keyword per suffix, \\picw/\\pich vs the dimensions the generator "
+      "wrote into random PNG/JPEG headers (EMF: 96-dpi fallback), goals, alignment, one picture per page in order, captions "
+      "per placement.",
+      "EMF has no dimension parser (fallback, as the anchor states); suffix/MIME detection is checked differentially only.",
+      "Rocq proof (byte arithmetic by lia, scanner step lemmas) + differential check on picture destinations",
+      "DESIGN.md section 6 C16")
